@@ -1375,6 +1375,33 @@ def c18_families(tier, seed, ids=None):
     for lo in range(40, 140, 20 if tier == "quick" else 5):
         sweep.append(mk(ids, [assign("gzero", I(0)), probe, dp] + [call("deepp", I(d)) for d in range(lo, lo + (20 if tier == "quick" else 5))] + [call("deepp", I(lo))], {"unassigned_locals_at_depths": [lo]}))
     out.append(("unassigned locals are nil at every stack height", sweep, ("value", "residue")))
+    # several suspended generators, each with parameters and locals of its own, after iterator contexts were given up in every way a program can:
+    # exhausted, abandoned by `return` from the loop (at top level of a function, inside a generator, in a helper called by a generator), by an error
+    first = assign("first", fn(["g"], block([fr(["x"], [call("g")], ret(N("x"))), I(0)])))
+    src = assign("src", fn([], block([y(I(3)), y(I(4)), y(I(5))])))
+    count = assign("count", fn(["tag", "n"], block([assign("i", I(0)), wh(bin_("<", N("i"), N("n")), block([y(bin_("+", N("tag"), call("toa", N("i")))), assign("i", bin_("+", N("i"), I(1)))]))])))
+    nest3 = fr(["a"], [call("count", St("x"), I(2))], fr(["b"], [call("count", St("y"), I(2))], fr(["c"], [call("count", St("z"), I(2))], assign("acc", bin_("+", N("acc"), lst([bin_("+", bin_("+", N("a"), N("b")), N("c"))]))))))
+    zip3 = fr(["a", "b", "c"], [call("count", St("p"), I(3)), call("count", St("q"), I(3)), call("count", St("r"), I(2))], assign("acc", bin_("+", N("acc"), lst([bin_("+", bin_("+", N("a"), N("b")), N("c"))]))))
+    giveups = {
+        "exhausted": fr(["v"], [call("src")], assign("acc", bin_("+", N("acc"), lst([N("v")])))),
+        "return-in-helper-called-by-generator": fr(["v"], [call("geng")], assign("acc", bin_("+", N("acc"), lst([N("v")])))),
+        "return-from-loop": assign("acc", bin_("+", N("acc"), lst([call("first", N("src"))]))),
+        "return-from-loop-inside-generator": fr(["v"], [call("genr")], assign("acc", bin_("+", N("acc"), lst([N("v")])))),
+        "abandoned-lockstep": fr(["v", "w"], [call("src"), call("count", St("k"), I(1))], assign("acc", bin_("+", N("acc"), lst([N("v"), N("w")])))),
+    }
+    geng = assign("geng", fn([], block([y(call("first", N("src"))), y(call("first", N("src")))])))
+    genr = assign("genr", fn([], block([fr(["x"], [call("src")], block([y(N("x")), iff(bin_("==", N("x"), I(4)), ret(I(0)))])), y(I(9))])))
+    gu = []
+    for gname, g in giveups.items():
+        for after in ("nest3", "zip3", "both"):
+            body = [assign("acc", lst([])), g] + ([nest3] if after in ("nest3", "both") else []) + ([zip3] if after in ("zip3", "both") else []) + [N("acc")]
+            for where in ("fn", "top"):
+                if where == "fn":
+                    items = [first, src, count, geng, genr, assign("main", fn([], block(body))), call("main"), call("main")]
+                else:
+                    items = [first, src, count, geng, genr, block(body), block(body)]
+                gu.append(mk(ids, items, {"giveup": gname, "after": after, "where": where}))
+    out.append(("suspended generators' parameters and locals after iterator contexts were given up", gu, ("value", "residue")))
     return out
 
 
